@@ -432,3 +432,134 @@ theorem convImport_carries (e : Env) (r : Rec) (hr : RecOK r Q) (hI : ImpQ Q) (c
   · exact Or.inl rfl
 
 end Typstyle
+
+namespace Typstyle
+open Twin
+variable {Q : ANode → Prop}
+
+/-! ### the general statement: the items are printed in the order of `importOrder` -/
+
+/-- The items as they are printed: stably sorted by key when reordering is on and the list is sortable,
+in source order otherwise (separators and parentheses prescribe nothing). -/
+def importPrinted (cfg : PConfig) (nodes : List ANode) : List ANode :=
+  if cfg.reorder && importSortable nodes then stableSort importSortKey (nodes.filter isImportItem) else nodes
+
+theorem specAllL_importOrder_general (cfg : PConfig) (nodes : List ANode) (hall : ∀ x ∈ nodes, importItemOK Q x) :
+    specAllL (importOrder cfg nodes) = specAllL (importPrinted cfg nodes) := by
+  unfold importOrder importPrinted
+  split
+  · rename_i hc
+    simp only [Bool.and_eq_true] at hc
+    have hnc : ∀ x ∈ nodes, isImportItem x = false → specAll x = {} := by
+      intro x hx hni
+      have hsortable := hc.2
+      unfold importSortable at hsortable
+      simp only [Bool.and_eq_true, List.all_eq_true, Bool.not_eq_true'] at hsortable
+      rcases (hall x hx).2.2 with h | h | h
+      · rw [h] at hni; cases hni
+      · rw [hsortable.1 x hx] at h; cases h
+      · exact specAll_ignorable x (hall x hx).1 h
+    have h1 := foldl_filter_sem specAll isImportItem (stableSort importSortKey nodes)
+      (fun x hx hni => hnc x ((mem_stableSort _ _ _).mp hx) hni) {}
+    rw [foldl_specAll, foldl_specAll, Streams.empty_app, Streams.empty_app] at h1
+    rw [h1, filter_stableSort]
+  · rfl
+
+theorem convImportItems_carries_general (e : Env) (hI : ImpQ Q) (ctx : Ctx) (hnm : NM ctx) (nodes : List ANode)
+    (hall : ∀ x ∈ nodes, importItemOK Q x) :
+    Post (convImportItems e ctx nodes) (fun d => Carries d (specAllL (importPrinted e.cfg nodes))) := by
+  unfold convImportItems
+  have hp := soft_paren e
+  have hall' : ∀ x ∈ importOrder e.cfg nodes, importItemOK Q x := by
+    intro x hx
+    unfold importOrder at hx
+    split at hx
+    · exact hall x ((mem_stableSort _ _ _).mp hx)
+    · exact hall x hx
+  have := list_construct_carries e ctx (importItem e) (importItemOK Q) (importItem_ok e hI) hnm ({} : LS) ⟨rfl, rfl, rfl⟩
+    id (fun _ => rfl) { e.parenStyle with omitDelimFlat := true, omitDelimEmpty := true } hp.2.2.1 hp.1 hp.2.1
+    (importOrder e.cfg nodes) hall' (fun x hx => importItemOK_nohash (hall' x hx))
+  rw [specAllL_importOrder_general e.cfg nodes hall] at this
+  exact this
+
+/-- The part of an import statement before its items. -/
+def importPrefix (nodes : List ANode) : List ANode :=
+  nodes.take ((nodes.findIdx? fun c => c.kind == .leftParen || c.kind == .importItems).getD nodes.length)
+
+/-- **`convert_import`, every configuration**: the statement is printed as its prefix followed by its
+items in the order of `importOrder` — sorted when reordering is on and the list is sortable, untouched
+otherwise.  Nothing is lost, duplicated or changed; only whole items move. -/
+theorem convImport_carries_general (e : Env) (r : Rec) (hr : RecOK r Q) (hI : ImpQ Q) (ctx : Ctx) (hnm : NM ctx)
+    (cs : List ANode) (a : Attrs)
+    (hlex : ANode.tokensAreLeavesL cs = true) (hq : ∀ c ∈ cs, Q c)
+    (hitems : ∀ x ∈ importFlattened cs, importItemOK Q x) :
+    Post (convImport e r ctx (.inner .moduleImport cs a))
+      (fun d => Carries d ((specAllL (importPrefix cs)).app (specAllL (importPrinted e.cfg (importFlattened cs))))) := by
+  have key : ∀ (div : Nat) (prefixPart : List ANode),
+      (prefixPart = cs.take div ∨ ∃ sp, cs.take div = prefixPart ++ [sp] ∧ sp.kind = .space) →
+      (∀ x ∈ (cs.drop div).flatMap (fun c => if c.kind == .importItems then c.children else [c]), importItemOK Q x) →
+      Post (do
+        let prefixDoc ← flowM e ctx prefixPart () (importPrefixProducer e r)
+        if (cs.drop div).isEmpty then pure prefixDoc else
+        if ((cs.drop div).flatMap fun c => if c.kind == .importItems then c.children else [c]).isEmpty then pure prefixDoc else do
+          let itemsDoc ← convImportItems e ctx ((cs.drop div).flatMap fun c => if c.kind == .importItems then c.children else [c])
+          pure ((prefixDoc ++ (if (prefixPart.getLast?.map (·.kind == .lineComment)).getD false then Twin.hardline else Twin.space)) ++ itemsDoc))
+        (fun d => Carries d ((specAllL (cs.take div)).app
+          (specAllL (importPrinted e.cfg ((cs.drop div).flatMap fun c => if c.kind == .importItems then c.children else [c]))))) := by
+    intro div prefixPart hpre hit
+    have hpreS : specAllL (cs.take div) = specAllL prefixPart := by
+      rcases hpre with h | ⟨sp, h, hk⟩
+      · rw [h]
+      · rw [h, specAllL_append, specAllL_cons, specAllL_nil]
+        have hsp : sp ∈ cs := List.mem_of_mem_take (by rw [h]; simp)
+        rw [specAll_space sp (tokensAreLeavesL_mem hlex hsp) hk]
+        simp
+    have hpm : ∀ c ∈ prefixPart, c ∈ cs := by
+      intro c hc
+      rcases hpre with h | ⟨sp, h, _⟩
+      · rw [h] at hc; exact List.mem_of_mem_take hc
+      · exact List.mem_of_mem_take (by rw [h]; exact List.mem_append_left _ hc)
+    have hlexp : ANode.tokensAreLeavesL prefixPart = true :=
+      lexL_of_mem (fun c hc => tokensAreLeavesL_mem hlex (hpm c hc))
+    have hflow := flowM_carries (commentOK e) (importPrefixProducer_ok e r hr) (fun c hok hk => specAll_space c hok.1 hk)
+      hnm prefixPart (fun c hc => ⟨tokensAreLeavesL_mem hlex (hpm c hc), hq c (hpm c hc)⟩) ()
+    rw [contribL_specAll _ hlexp] at hflow
+    refine Post.bind hflow (fun pd hpd => ?_)
+    rw [hpreS]
+    split
+    · rename_i he
+      have : cs.drop div = [] := by simpa using he
+      rw [this]
+      exact Post.pure (by simpa [importPrinted, stableSort] using hpd)
+    · split
+      · rename_i he
+        have : ((cs.drop div).flatMap fun c => if c.kind == .importItems then c.children else [c]) = [] := by simpa using he
+        rw [this]
+        exact Post.pure (by simpa [importPrinted, stableSort] using hpd)
+      · refine Post.bind (convImportItems_carries_general e hI ctx hnm _ hit) (fun idoc hid => Post.pure ?_)
+        have hsep : Carries (if (prefixPart.getLast?.map (·.kind == .lineComment)).getD false then Twin.hardline else Twin.space) {} := by
+          split
+          · exact Carries.hardline
+          · exact Carries.space
+        simpa using (hpd.app hsep).app hid
+  unfold convImport
+  simp only [show (ANode.inner Kind.moduleImport cs a).children = cs from rfl]
+  unfold importFlattened at hitems ⊢
+  unfold importPrefix
+  simp only at hitems ⊢
+  refine key _ _ ?_ hitems
+  split
+  · rename_i hc
+    simp only [Bool.and_eq_true, decide_eq_true_eq] at hc
+    obtain ⟨hpos, hsp⟩ := hc
+    generalize (List.findIdx? (fun c => c.kind == Kind.leftParen || c.kind == Kind.importItems) cs).getD cs.length = div at hpos hsp ⊢
+    obtain ⟨i, rfl⟩ : ∃ i, div = i + 1 := ⟨div - 1, by omega⟩
+    simp only [Nat.add_sub_cancel] at hsp ⊢
+    cases hi : cs[i]? with
+    | none => simp [hi] at hsp
+    | some sp =>
+      simp only [hi, Option.map_some, Option.getD_some, beq_iff_eq] at hsp
+      exact Or.inr ⟨sp, by rw [List.take_succ, hi]; rfl, hsp⟩
+  · exact Or.inl rfl
+
+end Typstyle
